@@ -5,6 +5,7 @@ set -e
 cd "$(dirname "$0")"
 export PYTHONPATH=/repo/src PYTHONHASHSEED=0 PYTHONDONTWRITEBYTECODE=1
 /venv/bin/python tools/translate.py 2> >(grep -v 'conda.cli' >&2)
+/venv/bin/python tools/audit.py 2> >(grep -v 'conda.cli' >&2)
 cd coq
 coq_makefile -f _CoqProject -o Makefile 2>&1 | grep -v 'conda.cli' || true
 timeout 7200 make -j16 2>&1 | grep -v 'conda.cli'
